@@ -25,7 +25,7 @@ from .. import core, par
 MANIFEST = dict(
     text="Proof: Lean theorems assign_functional / groups_listed / group_list_sound / defined_flow_uuid / explicit_wins (every site, every position) / conflict_rejected / conflict_sound / trigger_check_exact / trigger_unknown_flow_rejected_partial / validate_idem / container_validate_idem over a hand model of UUIDDict and RapidProContainer.update_global_uuids, for all occurrence lists, all starting dictionaries and any number of repeated validations (unbounded); tied to the code by a differential run over containers built through content-index sheets, from_dict and direct API calls (names shared across flows/campaigns/triggers, explicit uuids on random subsets of occurrences in random order, 1-3 renders) and by T1 call sequences regenerated from the source. The property's own statement is evaluated on every real render() output.",
     ref="§5 C06",
-    note="Trusts: Lean kernel (axioms audited each run), the differential harness (spec → model request translation, output scanner) and Driver JSON codec, Python dict insertion order, uuid4 freshness (checked, not proved). `trigger for a flow that does not exist` is proved for the reading the code implements (flow name not mentioned anywhere) — the full reading is false on the unchanged tree (known finding F-C06-b, negative witness in Lean); obj_id inside inserted blocks is lost (F-C06-a).",
+    note="Trusts: Lean kernel (axioms audited each run), the differential harness (spec → model request translation, output scanner) and Driver JSON codec, Python dict insertion order, uuid4 freshness (checked, not proved). `trigger for a flow that does not exist` is proved for the reading the code implements (flow name not mentioned anywhere) — the full reading is false on the unchanged tree (known finding F-C06-b, negative witness in Lean); obj_id inside inserted blocks was lost (F-C06-a, fixed).",
     technique="Lean 4 proof (induction over the occurrence list, dictionary invariants) + randomized model/code correspondence at render() output",
 )
 
@@ -182,39 +182,52 @@ def build_dict(spec):
     return json.loads(json.dumps(data))
 
 
-FLOW_HEADER = ["row_id", "type", "from", "condition", "message_text", "obj_id"]
+FLOW_HEADER = ["row_id", "type", "from", "condition", "message_text", "obj_id", "node_name"]
+ACTION_ROWS = ("add", "remove", "msg")
+
+
+def merges(rows, i):
+    """row i is written as an extra action of the node of row i-1 (same node_name, one
+    unconditional edge from that row) — the shape flows_to_sheets produces for multi-action nodes"""
+    return bool(i > 0 and rows[i].get("merge") and rows[i]["t"] in ACTION_ROWS and rows[i - 1]["t"] in ACTION_ROWS)
 
 
 def sheet_rows(rows, prefix=""):
     """CSV rows of a flow / block sheet: a linear chain, split rows followed by one message row
-    per case.  Returns the row tuples."""
+    per case; action rows carry a node_name, a merged row repeats the node_name of the row
+    before it.  Returns the row tuples."""
     out = []
     prev = "start"
     prev_cond = ""
     k = 0
-    for r in rows:
+    node_name = ""
+    for i, r in enumerate(rows):
         k += 1
         rid = f"{prefix}r{k}"
         t = r["t"]
-        if t in ("add", "remove"):
-            out.append([rid, "add_to_group" if t == "add" else "remove_from_group", prev, prev_cond, r["name"], r["obj_id"] or ""])
+        if t in ACTION_ROWS:
+            if merges(rows, i):
+                assert prev_cond == "" and node_name
+            else:
+                node_name = f"{prefix}node{k}"
+            if t == "msg":
+                out.append([rid, "send_message", prev, prev_cond, "some text", "", node_name])
+            else:
+                out.append([rid, "add_to_group" if t == "add" else "remove_from_group", prev, prev_cond, r["name"], r["obj_id"] or "", node_name])
             prev, prev_cond = rid, ""
         elif t == "start":
-            out.append([rid, "start_new_flow", prev, prev_cond, r["name"], r["obj_id"] or ""])
+            out.append([rid, "start_new_flow", prev, prev_cond, r["name"], r["obj_id"] or "", ""])
             prev, prev_cond = rid, "completed"
         elif t == "split":
-            out.append([rid, "split_by_group", prev, prev_cond, r["name"], r["obj_id"] or ""])
+            out.append([rid, "split_by_group", prev, prev_cond, r["name"], r["obj_id"] or "", ""])
             last = None
             for j, cnd in enumerate(r["conds"]):
                 mid = f"{rid}c{j}"
-                out.append([mid, "send_message", rid, cnd, f"in {cnd}", ""])
+                out.append([mid, "send_message", rid, cnd, f"in {cnd}", "", ""])
                 last = mid
             prev, prev_cond = (last or rid), ""
         elif t == "block":
-            out.append([rid, "insert_as_block", prev, prev_cond, r["block"], ""])
-            prev, prev_cond = rid, ""
-        else:
-            out.append([rid, "send_message", prev, prev_cond, "some text", ""])
+            out.append([rid, "insert_as_block", prev, prev_cond, r["block"], "", ""])
             prev, prev_cond = rid, ""
     return out
 
@@ -257,15 +270,23 @@ def build_sheets(spec):
 
 
 def _sheet_entries(rows, blocks, top=True):
-    """(pre records, node list) a list of sheet rows produces — as coded: the rows of an
-    inserted block are parsed against a throw-away container (["block", […]] item: their
-    records can clash with each other, never reach the real dictionary — F-C06-a)."""
+    """(pre records, node list) a list of sheet rows produces — as coded: every row that makes
+    a node records its obj_id on the container while parsing (also inside inserted blocks,
+    since fix F-C06-a); a row MERGED into an existing node (same node_name) returns from
+    _parse_row before _get_row_node: it records nothing at parse time, its Group object alone
+    carries the obj_id into validate()."""
     pre, nodes = [], []
-    for r in rows:
+    for i, r in enumerate(rows):
         t = r["t"]
         if t in ("add", "remove"):
-            pre.append(["row:group", r["name"], r["obj_id"]])
-            nodes.append({"actions": [["group", r["name"], r["obj_id"]]], "cases": []})
+            if merges(rows, i):
+                nodes[-1]["actions"].append(["group", r["name"], r["obj_id"]])
+            else:
+                pre.append(["row:group", r["name"], r["obj_id"]])
+                nodes.append({"actions": [["group", r["name"], r["obj_id"]]], "cases": []})
+        elif t == "msg":
+            if not merges(rows, i):
+                nodes.append({"actions": [], "cases": []})
         elif t == "start":
             pre.append(["row:flow", r["name"], r["obj_id"]])
             nodes.append({"actions": [["flow", r["name"], None]], "cases": []})
@@ -867,6 +888,28 @@ def gen_spec(rng: random.Random, mode: str, avoid_known=True):
                 else:
                     rows.append({"t": "msg"})
             spec["flows"].append({"name": name, "uuid": None, "rows": rows})
+        # multi-action nodes: a row merged into the node of the row before it (same node_name)
+        for rows in [f["rows"] for f in spec["flows"]] + list(spec["blocks"].values()):
+            if rng.random() < 0.5:
+                for i in range(1, len(rows)):
+                    if rows[i]["t"] in ACTION_ROWS and rows[i - 1]["t"] in ACTION_ROWS and rng.random() < 0.5:
+                        rows[i]["merge"] = True
+        if rng.random() < 0.25:
+            # the same group on several add/remove rows of one flow; a LATER occurrence carries the
+            # obj_id and is merged as an extra action into an existing node; the first occurrence
+            # has no obj_id (explicit must win) or, rarely, a different one (must be rejected)
+            g = rng.choice(gnames)
+            first = {"t": rng.choice(["add", "remove"]), "name": g,
+                     "obj_id": f"u-group-{g}-b" if rng.random() < 0.25 else None}
+            later = {"t": rng.choice(["add", "remove"]), "name": g, "obj_id": f"u-group-{g}-a", "merge": True}
+            between = rng.choice([[], [{"t": "msg"}], [{"t": "msg"}, {"t": "msg", "merge": True}],
+                                  [{"t": "split", "name": g, "obj_id": None, "conds": [g]}, {"t": "msg"}],
+                                  [{"t": rng.choice(["add", "remove"]), "name": rng.choice(gnames), "obj_id": None}]])
+            rows = rng.choice(spec["flows"])["rows"]
+            at = rng.randint(0, len(rows))
+            if at < len(rows) and rows[at].get("merge"):
+                rows[at] = dict(rows[at], merge=False)
+            rows[at:at] = [first] + copy.deepcopy(between) + [later]
         for i in range(rng.choice([0, 0, 1, 2])):
             evs = []
             for _ in range(rng.randint(0, 3)):
@@ -944,6 +987,144 @@ def gen_spec(rng: random.Random, mode: str, avoid_known=True):
     return spec
 
 
+def merge_strata(spec):
+    out = {"merged_rows": 0, "merged_row_with_obj_id": 0, "merged_obj_id_after_same_group_without_or_other_obj_id": 0}
+    for rows in [f["rows"] for f in spec["flows"]] + list(spec["blocks"].values()):
+        seen = {}
+        for i, r in enumerate(rows):
+            if r["t"] in ("add", "remove"):
+                if merges(rows, i):
+                    out["merged_rows"] += 1
+                    if r["obj_id"]:
+                        out["merged_row_with_obj_id"] += 1
+                        if r["name"] in seen and seen[r["name"]] != r["obj_id"]:
+                            out["merged_obj_id_after_same_group_without_or_other_obj_id"] += 1
+                seen.setdefault(r["name"], r["obj_id"])
+            elif merges(rows, i):
+                out["merged_rows"] += 1
+    return out
+
+
+# ------------------------------------------------------------------ neighbours of a disagreeing case
+
+
+def iter_slots(spec):
+    """every place of the spec that holds a (kind, name, uuid): (kind, name, container, key)"""
+    for g in spec["groups"]:
+        yield "group", g[0], g, 1
+    for f in spec["flows"]:
+        if "rows" in f:
+            rowsets = [f["rows"]]
+        else:
+            rowsets = []
+            yield "flow", f["name"], f, "uuid"
+            for nd in f["nodes"]:
+                if nd["t"] == "actions":
+                    for a in nd["actions"]:
+                        for g in a["groups"]:
+                            yield "group", g[0], g, 1
+                elif nd["t"] == "enter":
+                    yield "flow", nd["flow"][0], nd["flow"], 1
+                elif nd["t"] == "split":
+                    for g in nd["cases"]:
+                        yield "group", g[0], g, 1
+        for rows in rowsets:
+            for r in rows:
+                if r["t"] in ("add", "remove", "split"):
+                    yield "group", r["name"], r, "obj_id"
+                elif r["t"] == "start":
+                    yield "flow", r["name"], r, "obj_id"
+    for rows in spec["blocks"].values():
+        for r in rows:
+            if r["t"] in ("add", "remove", "split"):
+                yield "group", r["name"], r, "obj_id"
+            elif r["t"] == "start":
+                yield "flow", r["name"], r, "obj_id"
+    if spec["mode"] != "sheets":
+        for c in spec["campaigns"]:
+            yield "group", c["group"][0], c["group"], 1
+            for e in c["events"]:
+                if e.get("flow"):
+                    yield "flow", e["flow"][0], e["flow"], 1
+        for t in spec["triggers"]:
+            yield "flow", t["flow"][0], t["flow"], 1
+            for g in t["groups"] + t["exclude"]:
+                yield "group", g[0], g, 1
+
+
+def neighbour(spec, rng):
+    """A mutation of a case on which model and code disagreed: the same shape with the explicit
+    uuids moved between the occurrences of a name (permuted / only one kept, on a random
+    occurrence / two different ones), merged rows toggled, rows or nodes rotated, the rest of
+    the container dropped."""
+    sp = copy.deepcopy(spec)
+    sp.pop("via", None)
+    for _ in range(rng.randint(1, 3)):
+        classes = {}
+        for kind, name, obj, key in iter_slots(sp):
+            classes.setdefault((kind, name), []).append((obj, key))
+        multi = [k for k, v in classes.items() if len(v) >= 2]
+        op = rng.choice(["permute", "one", "two", "merge", "rotate", "shrink", "clear"])
+        if op in ("permute", "one", "two", "clear") and classes:
+            key = rng.choice(multi) if multi and rng.random() < 0.85 else rng.choice(sorted(classes))
+            slots = classes[key]
+            tag = f"u-{key[0]}-{key[1]}-"
+            if op == "permute":
+                vals = [o[k] for o, k in slots]
+                rng.shuffle(vals)
+                for (o, k), v in zip(slots, vals):
+                    o[k] = v
+            elif op == "clear":
+                for o, k in slots:
+                    o[k] = None
+            else:
+                for o, k in slots:
+                    o[k] = None
+                chosen = rng.sample(slots, min(len(slots), 1 if op == "one" else 2))
+                for (o, k), suffix in zip(chosen, ["a", "b"]):
+                    o[k] = tag + suffix
+        elif op == "merge" and sp["mode"] == "sheets":
+            rowsets = [f["rows"] for f in sp["flows"]] + list(sp["blocks"].values())
+            cands = [(rows, i) for rows in rowsets for i in range(1, len(rows))
+                     if rows[i]["t"] in ACTION_ROWS and rows[i - 1]["t"] in ACTION_ROWS]
+            if cands:
+                rows, i = rng.choice(cands)
+                rows[i]["merge"] = not rows[i].get("merge")
+        elif op == "rotate" and sp["flows"]:
+            f = rng.choice(sp["flows"])
+            seq = f.get("rows") if "rows" in f else f["nodes"]
+            if len(seq) >= 2:
+                j = rng.randrange(1, len(seq))
+                seq[:] = seq[j:] + seq[:j]
+        elif op == "shrink":
+            if len(sp["flows"]) > 1 and rng.random() < 0.5:
+                keep = rng.choice(sp["flows"])
+                if sp["mode"] != "sheets" or all(t["flow"][0] == keep["name"] for t in sp["triggers"]):
+                    sp["flows"] = [keep]
+            elif rng.random() < 0.5:
+                sp["campaigns"] = []
+            else:
+                sp["triggers"] = []
+    # flows of a dict/api container never have a falsy uuid slot filled by the generator's "flow" class
+    if sp["mode"] != "sheets":
+        for f in sp["flows"]:
+            for nd in f["nodes"]:
+                if nd["t"] == "split":  # add_choice merges identical cases
+                    seen, cases = set(), []
+                    for g in nd["cases"]:
+                        if (g[0], g[1]) not in seen:
+                            seen.add((g[0], g[1]))
+                            cases.append(g)
+                    nd["cases"] = cases
+    else:
+        tags = ["f"] * len(sp["flows"]) + ["c"] * len(sp["campaigns"]) + (["t"] if sp["triggers"] else [])
+        sp["interleave"] = tags
+    req = model_request(sp)
+    if trigger_only_referenced(req):
+        return None
+    return sp
+
+
 def known_finding_specs():
     """deterministic stream exercising the open findings"""
     a = {"mode": "sheets", "renders": 1, "groups": [], "campaigns": [], "triggers": [],
@@ -989,6 +1170,18 @@ CORPUS = [
     {"mode": "sheets", "renders": 1, "blocks": {}, "groups": [], "campaigns": [], "triggers": [],
      "flows": [{"name": "F1", "uuid": None, "rows": [{"t": "msg"}]},
                {"name": "F2", "uuid": None, "rows": [{"t": "start", "name": "F1", "obj_id": "u-flow-F1-a"}]}]},
+    # the only obj_id of a group sits on a row merged into an existing node (multi-action node, same
+    # node_name): it is recorded nowhere at parse time, its Group object must carry it
+    {"mode": "sheets", "renders": 2, "blocks": {}, "groups": [], "interleave": ["f", "t", "c"],
+     "flows": [{"name": "F1", "uuid": None, "rows": [{"t": "add", "name": "G1", "obj_id": None}, {"t": "msg"},
+                                                      {"t": "remove", "name": "G1", "obj_id": "u-group-G1-a", "merge": True},
+                                                      {"t": "split", "name": "G1", "obj_id": None, "conds": ["G1"]}]}],
+     "campaigns": [{"name": "c", "group": ["G1", None], "events": [{"type": "F", "flow": ["F1", None]}]}],
+     "triggers": [{"flow": ["F1", None], "groups": [["G1", None]], "exclude": []}, {"flow": ["F1", None], "groups": [], "exclude": [["G1", None]]}]},
+    # … and a different obj_id on the first row: must be rejected
+    {"mode": "sheets", "renders": 1, "blocks": {}, "groups": [], "campaigns": [], "triggers": [],
+     "flows": [{"name": "F1", "uuid": None, "rows": [{"t": "add", "name": "G1", "obj_id": "u-group-G1-b"}, {"t": "msg"},
+                                                      {"t": "remove", "name": "G1", "obj_id": "u-group-G1-a", "merge": True}]}]},
     # falsy "" uuids behave like None
     {"mode": "dict", "renders": 2, "blocks": {}, "groups": [["G1", ""]],
      "flows": [{"name": "F1", "uuid": "", "nodes": [{"t": "split", "cases": [["G1", ""]]}, {"t": "enter", "flow": ["F1", ""]}]}],
@@ -1007,6 +1200,9 @@ def _fold(ck, specs, results, stream):
         ck.count(f"{stream}.{spec['mode']}")
         if spec.get("via"):
             ck.count(f"{stream}.sheets.via_create_flows_csv_files")
+        if spec["mode"] == "sheets":
+            for k, v in merge_strata(spec).items():
+                ck.count(f"sheets.{k}", v)
         ck.count(f"renders={spec['renders']}")
         ck.count("outcome." + (info["error"] or "rendered"))
         ck.count("occurrences", r["n_occ"])
@@ -1043,7 +1239,7 @@ def run(ck: core.Check):
     ]
     ck.partial_gap = [
         "trigger_unknown_flow_rejected is proved for the reading the code implements (flow name not in flow_dict = neither defined nor mentioned by any action/campaign/obj_id); the full reading (not DEFINED) is false on the unchanged tree: Lean negative witness trigger_unknown_flow_rejected_full_false, known finding F-C06-b",
-        "rows of inserted blocks record their obj_id in a throw-away container (modelled as coded; known finding F-C06-a)",
+        "sheet rows merged into an existing node (same node_name) record nothing at parse time (modelled as coded: only their Group object carries the obj_id); merging of start_new_flow / split rows does not exist in the code",
         "nested insert_as_block (a block inserting a block) is neither generated nor modelled (each level gets its own throw-away container in the code)",
         "modifications of the container between two renders (adding flows/triggers after a render) are outside the statement and not explored",
     ]
@@ -1101,13 +1297,37 @@ def run(ck: core.Check):
     flat_res = [r for sh in res for r in sh]
     _fold(ck, flat_specs, flat_res, "main")
 
-    for need in ("main.sheets", "main.dict", "main.api", "expect.conflict", "expect.trigger_unknown", "expect.ok", "renders=3"):
+    for need in ("main.sheets", "main.dict", "main.api", "expect.conflict", "expect.trigger_unknown", "expect.ok", "renders=3",
+                 "sheets.merged_rows", "sheets.merged_row_with_obj_id",
+                 "sheets.merged_obj_id_after_same_group_without_or_other_obj_id"):
         if not ck.strata.get(need):
             raise core.Infra(f"generator self-check: stratum {need} is empty")
 
-    if (ck.tie_breaks or not ck.lean.ok) and not ck.violations and quick:
+    if (ck.tie_breaks or not ck.lean.ok) and not ck.violations:
         ck.search_ran = True
         rng2 = random.Random(ck.seed + 1)
+        # (i) the shapes on which model and code disagreed: mutations of those very cases
+        seeds, seen = [], set()
+        for t in ck.tie_breaks:
+            sp = (t or {}).get("detail", {}).get("spec")
+            if sp:
+                key = json.dumps(sp, sort_keys=True)
+                if key not in seen:
+                    seen.add(key)
+                    seeds.append(sp)
+        seeds.sort(key=lambda sp: len(json.dumps(sp)))
+        specs = []
+        for sp in seeds[:60]:
+            for _ in range(150):
+                nb = neighbour(sp, rng2)
+                if nb is not None:
+                    specs.append(nb)
+        if specs:
+            res = par.pmap(worker, core.shard(specs, par.NPROC * 2))
+            flat_specs = [s for sh in core.shard(specs, par.NPROC * 2) for s in sh]
+            _fold(ck, flat_specs, [r for sh in res for r in sh], "search_neighbours")
+    if (ck.tie_breaks or not ck.lean.ok) and not ck.violations and quick:
+        # (ii) the thorough-size generator
         specs = gen(12000, rng2)
         res = par.pmap(worker, core.shard(specs, par.NPROC * 2))
         flat_specs = [s for sh in core.shard(specs, par.NPROC * 2) for s in sh]
